@@ -634,16 +634,21 @@ def bulk_item(ctx: Ctx, env: Env, levels_small: tuple[str, ...], vi: int, ki: in
 def run(ctx: Ctx) -> None:
     logging.disable(logging.CRITICAL)
     all_levels = ("verify", "allow", "require")
-    ctx.extra.update({"bulk_tokens": 0, "struct_headers": 0, "history_sequences": 0, "configs": 0})
+    ctx.extra.update({"bulk_version_kid_items": 0, "struct_headers": 0, "history_sequences": 0, "max_configs": 0})
     envs: dict[tuple[str, int, bool], Env] = {}
 
     def env_for(c: tuple[str, int, bool]) -> Env:
         if c not in envs:
-            envs[c] = Env(c[0], c[1], c[2], all_levels)
+            e = envs[c] = Env(c[0], c[1], c[2], all_levels)
+            status, hs, body = e.ref401
+            blob = body + b"\n" + repr(hs).encode()
+            leaked = [r for r in REASONS if r.encode() in blob]
+            if not status.startswith("401") or leaked:
+                ctx.fail("require:absent-header-401:" + ("status" if not status.startswith("401") else "echoes-" + leaked[0]),
+                         f"the 401 for an absent header is {status} and contains reason codes {leaked}", None)
         return envs[c]
 
     max_small = 2 if ctx.quick else 3
-    before = 0
     for cfg in configs(ctx):
         tsa = ts_alphabet(NOW, cfg[1])
         # ---- bulk: top-level item = (config, version, kid) ------------------------------------------
@@ -656,9 +661,8 @@ def run(ctx: Ctx) -> None:
                     continue
                 env = env_for(cfg)
                 seen_tok = mint(S1, "k1", str(NOW), N0)
-                before = ctx.evaluations
                 bulk_item(ctx, env, all_levels, vi, ki, max_small, ctx.thorough, tsa, seen_tok)
-                ctx.extra["bulk_tokens"] += 1 if ctx.evaluations > before else 0
+                ctx.extra["bulk_version_kid_items"] += 1
         # ---- struct -----------------------------------------------------------------------------------
         for tag, raw in struct_headers(KEYMAPS[cfg[0]]):
             if not ctx.mine():
@@ -687,7 +691,7 @@ def run(ctx: Ctx) -> None:
                         seq = ((first, 0), second) + rest
                         run_history(ctx, env, all_levels if len(seq) <= 3 else ("verify", "allow"), seq)
                         ctx.extra["history_sequences"] += 1
-    ctx.extra["configs"] = len(envs)
+    ctx.extra["max_configs"] = len(envs)
 
 
 def replay(ctx: Ctx, case: dict[str, Any]) -> None:
